@@ -98,6 +98,7 @@ def to_z3(v):
     if isinstance(v, int):
         return z3.IntVal(v)
     if isinstance(v, float):
+        v = float(v)          # numpy.float64 -> python float (repr differs)
         if v != v or v in (float("inf"), float("-inf")):
             raise Unsupported("nan/inf literal in symbolic arithmetic")
         return z3.RealVal(repr(v)) if "e" not in repr(v) else z3.RealVal(str(fractions.Fraction(v)))
@@ -782,7 +783,13 @@ class Interp:
         if isinstance(obj, Obj) and issubclass(obj.cls, cls):
             init = self.lookup_class_attr(cls, "__init__")
             if init is not _MISSING and init is not object.__init__:
-                if S.is_repo_function(init):
+                use_source = S.is_repo_function(init)
+                if use_source and init.__code__.co_filename == "<string>" and init not in S.REGISTERED_SOURCES:
+                    try:
+                        S.find_generated(init)
+                    except LookupError:
+                        use_source = False      # e.g. the __init__ that @dataclass generates: modelled from the field list
+                if use_source:
                     self.call(init, [obj] + args, kwargs, node)
                 else:
                     r = self.lib.generated_init(self, cls, obj, args, kwargs, node)
